@@ -72,6 +72,9 @@ type DSConfig struct {
 	// TimeoutErrs: about half of the injected open/iterator errors wrap context.DeadlineExceeded, the
 	// way a driver or connection-pool timeout does while the REQUEST's own context is alive.
 	TimeoutErrs bool
+	// LateCancel: with IterLatency, half of the iterators behave like a backend that checks the context
+	// on entry only (a cancellation during the round trip does not stop the row from being consumed).
+	LateCancel bool
 }
 
 // OpInfo describes an intercepted storage operation.
@@ -151,6 +154,7 @@ func (d *DS) BindRequest(req string, root context.Context) {
 }
 
 func (d *DS) SetIterLatency(on bool) { d.mu.Lock(); d.cfg.IterLatency = on; d.mu.Unlock() }
+func (d *DS) SetLateCancel(on bool)  { d.mu.Lock(); d.cfg.LateCancel = on; d.mu.Unlock() }
 
 func (d *DS) Fired() map[string]int {
 	d.mu.Lock()
@@ -306,6 +310,7 @@ func (d *DS) wrapIter(ctx context.Context, info OpInfo, it storage.TupleIterator
 	}
 	occ := d.run.Occ("iter|" + info.Req + "|" + info.Sig)
 	w.occ = occ
+	w.lateCancel = d.cfg.LateCancel && d.run.H("latecancel", info.Req, info.Sig, occ)%2 == 0
 	if d.cfg.Faults&FaultIterErr != 0 && d.run.Chance(d.cfg.FaultRate, "itererr", info.Req, info.Sig, occ) {
 		w.failAt = int(d.run.H("iterpos", info.Req, info.Sig, occ)%4) + 1
 	}
@@ -324,6 +329,7 @@ type simIter struct {
 	failAt  int
 	panicAt int
 	failed  bool
+	lateCancel bool
 	err     error
 	stopped atomic.Bool
 	openCtx context.Context
@@ -346,7 +352,14 @@ func (s *simIter) step(ctx context.Context) error {
 	}
 	if s.d.cfg.IterLatency {
 		lat := time.Duration(s.d.run.H("ilat", s.info.Req, s.info.Sig, s.occ, s.n)%uint64(s.d.cfg.MaxLatency)) + 1
-		if err := s.d.run.SleepUnique(ctx, lat); err != nil {
+		if s.lateCancel {
+			// a backend that looks at the context on entry only: the round trip completes and the row is
+			// consumed from the cursor even if the caller gave up meanwhile
+			if err := ctx.Err(); err != nil {
+				return err
+			}
+			_ = s.d.run.SleepUnique(nil, lat)
+		} else if err := s.d.run.SleepUnique(ctx, lat); err != nil {
 			return err
 		}
 	}
@@ -369,6 +382,9 @@ func (s *simIter) step(ctx context.Context) error {
 func (s *simIter) Next(ctx context.Context) (*openfgav1.Tuple, error) {
 	if err := s.step(ctx); err != nil {
 		return nil, err
+	}
+	if s.lateCancel {
+		ctx = context.WithoutCancel(ctx)
 	}
 	return s.inner.Next(ctx)
 }
